@@ -38,10 +38,19 @@ type Case struct {
 	GCInterval    int    `json:"gcinterval,omitempty"` // ticks; -1: keep the default (TTL/4)
 	EmptyIDSerial int    `json:"emptyid"`              // manual IDs: this put carries the (valid) empty ID; -1 none
 	Prefill       int    `json:"prefill,omitempty"`    // number of valid puts performed before Ops (topics cycle deterministically)
+	NsTicks       bool   `json:"nsticks,omitempty"`    // valid: one tick is a nanosecond instead of a millisecond (TTL and GCInterval down to 1ns)
 	Ops           []Op   `json:"ops"`
 }
 
 const tick = time.Millisecond
+
+// tickOf returns the duration of one tick of a case.
+func (c Case) tickOf() time.Duration {
+	if c.NsTicks {
+		return time.Nanosecond
+	}
+	return tick
+}
 
 var t0 = time.Unix(1_700_000_000, 0)
 
@@ -131,6 +140,7 @@ func genValidCase(t *rapid.T) Case {
 	if stats.Pct(t, "ttlforever") >= 93 {
 		c.TTL = -1
 	}
+	c.NsTicks = stats.Pct(t, "nsticks") >= 80
 	switch rapid.IntRange(0, 4).Draw(t, "gckind") {
 	case 0:
 		c.GCInterval = 0
@@ -289,7 +299,7 @@ func newWorld(c Case, v *stats.Verdict) (*world, error) {
 		w.fin, w.rep = r, r
 		return w, nil
 	}
-	w.m.ttl = time.Duration(c.TTL) * tick
+	w.m.ttl = time.Duration(c.TTL) * c.tickOf()
 	if c.TTL < 0 {
 		w.m.ttl = time.Duration(math.MaxInt64) // "keep forever": documented as technically possible
 	}
@@ -298,7 +308,7 @@ func newWorld(c Case, v *stats.Verdict) (*world, error) {
 		return nil, err
 	}
 	if c.GCInterval >= 0 {
-		r.GCInterval = time.Duration(c.GCInterval) * tick
+		r.GCInterval = time.Duration(c.GCInterval) * c.tickOf()
 	}
 	r.Now = func() time.Time { return w.m.now }
 	w.val, w.rep = r, r
